@@ -339,7 +339,7 @@ def judge_op(spec, codec, scenario, op, evs, probes):
                 return V("poll_wrong_path", f"poll was {a['verb']} {a['url']}; the service YAML rule prescribes GET {want_paths[:1]} "
                          f"(first binding that matches the operation name {op['op_name']!r})")
             if (u.scheme, u.netloc) != (u0.scheme, u0.netloc):
-                return V("poll_wrong_channel", f"poll went to host {u.netloc}; the method call used {u0.netloc}")
+                return V("poll_wrong_channel", f"poll went to {u.scheme}://{u.netloc}; the method call used {u0.scheme}://{u0.netloc}")
         else:
             if a["path"] != GET_OP:
                 return V("poll_wrong_path", f"poll went to {a['path']}, expected {GET_OP}")
